@@ -344,9 +344,14 @@ def gen_doc(rng, **opts):
     decorate(rng, root, dict(opts, p_hidden=0.0), ids)
     cfg = {"ppi": rng.choice([96.0, 96.0, 72.0, 1000.0]), "reify": True, "color": rng.choice(["black", "black", "teal"]),
            "width": None, "height": None, "transform": None}
-    if rng.random() < 0.4:
+    r = rng.random()
+    if r < 0.4:
         cfg["width"] = rng.choice([500.0, 1000.0, 320.0, ["10", "in"], ["200", "pt"]])
         cfg["height"] = rng.choice([500.0, 800.0, 240.0, ["5", "in"]])
+    elif r < 0.5:       # only one of the two is given by the caller
+        cfg["width"] = rng.choice([500.0, 320.0, ["10", "in"]])
+    elif r < 0.6:
+        cfg["height"] = rng.choice([800.0, 240.0, ["5", "in"]])
     if rng.random() < 0.25:
         cfg["transform"] = rand_tf(rng, 1)
     doc = {"root": root, "cfg": cfg}
@@ -594,22 +599,23 @@ def path_data_diff(obs_shape, ms):
     return pl.segs_diff(obs_shape["segs"], ms["psegs"], 1e-9)
 
 
-def reified_diff(obs_t, ms, tol=1e-9):
+def reified_diff(obs_t, ms, tol=1e-9, geometry=True, stroke=True):
     """a shape parsed with reify=True against the Lean model of reify(): the shape's own numbers, its residual matrix and
     its stroke width"""
     r = ms.get("reified")
     if r is None or obs_t.get("fields") is None or ms["kind"] == "path":
         return None
     scale = max([1.0] + [abs(v) for v in r["nums"] + r["m"]])
-    if len(obs_t["fields"]) != len(r["nums"]):
-        return "reified %s has %d numbers, model %d" % (ms["kind"], len(obs_t["fields"]), len(r["nums"]))
-    for i, (a, b) in enumerate(zip(obs_t["fields"], r["nums"])):
-        if abs(a - b) > tol * scale:
-            return "reified %s: number %d is %r, model %r" % (ms["kind"], i, a, b)
-    for i, (a, b) in enumerate(zip(obs_t["m"], r["m"])):
-        if abs(a - b) > tol * scale:
-            return "reified %s: residual matrix entry %d is %r, model %r" % (ms["kind"], i, a, b)
-    if isinstance(obs_t["sw"], float) and abs(obs_t["sw"] - r["sw"]) > 1e-9 * max(1.0, abs(r["sw"])):
+    if geometry:
+        if len(obs_t["fields"]) != len(r["nums"]):
+            return "reified %s has %d numbers, model %d" % (ms["kind"], len(obs_t["fields"]), len(r["nums"]))
+        for i, (a, b) in enumerate(zip(obs_t["fields"], r["nums"])):
+            if abs(a - b) > tol * scale:
+                return "reified %s: number %d is %r, model %r" % (ms["kind"], i, a, b)
+        for i, (a, b) in enumerate(zip(obs_t["m"], r["m"])):
+            if abs(a - b) > tol * scale:
+                return "reified %s: residual matrix entry %d is %r, model %r" % (ms["kind"], i, a, b)
+    if stroke and isinstance(obs_t["sw"], float) and abs(obs_t["sw"] - r["sw"]) > 1e-9 * max(1.0, abs(r["sw"])):
         return "reified %s: stroke width %r, model %r" % (ms["kind"], obs_t["sw"], r["sw"])
     return None
 
